@@ -63,18 +63,187 @@ pub fn check_doc(d: &DocCase) -> Result<ast::Aidl, String> {
     Ok(tree)
 }
 
+/// "wide" documents: hundreds of members / arguments / imports / elements / parameters
+const WIDE_SIZES: [usize; 5] = [100, 255, 256, 257, 300];
+
+pub fn wide_case(idx: u64) -> (FileM, String) {
+    let n = WIDE_SIZES[(idx % 5) as usize];
+    let shape = idx / 5;
+    let int = || TyM::Prim("int".into());
+    let lit1 = || LitM {
+        kind: LitKind::Int,
+        text: "1".into(),
+    };
+    let base = |item: ItemM| FileM {
+        package: vec!["p".into()],
+        imports: vec![],
+        decls: vec![],
+        item,
+    };
+    let m = match shape {
+        0 => base(ItemM::Interface(InterfaceM {
+            annos: vec![],
+            oneway: false,
+            name: "I".into(),
+            members: (0..n)
+                .map(|i| {
+                    IMemberM::Method(MethodM {
+                        annos: vec![],
+                        oneway: i % 7 == 0,
+                        ret: TyM::Void,
+                        name: format!("m{i}"),
+                        args: vec![ArgM {
+                            dir: Some(DirM::In),
+                            annos: vec![],
+                            ty: int(),
+                            name: Some(format!("a{i}")),
+                        }],
+                        trailing_comma: false,
+                        code: Some(format!("{i}")),
+                    })
+                })
+                .collect(),
+        })),
+        1 => base(ItemM::Interface(InterfaceM {
+            annos: vec![],
+            oneway: false,
+            name: "I".into(),
+            members: vec![IMemberM::Method(MethodM {
+                annos: vec![],
+                oneway: false,
+                ret: TyM::Void,
+                name: "f".into(),
+                args: (0..n)
+                    .map(|i| ArgM {
+                        dir: if i % 2 == 0 { Some(DirM::In) } else { None },
+                        annos: vec![],
+                        ty: if i % 3 == 0 { TyM::Str } else { int() },
+                        name: if i % 5 == 0 { None } else { Some(format!("a{i}")) },
+                    })
+                    .collect(),
+                trailing_comma: true,
+                code: None,
+            })],
+        })),
+        2 => base(ItemM::Parcelable(ParcelableM {
+            annos: vec![],
+            name: "P".into(),
+            members: (0..n)
+                .map(|i| {
+                    if i % 4 == 0 {
+                        PMemberM::Const(ConstM {
+                            annos: vec![],
+                            ty: int(),
+                            name: format!("K{i}"),
+                            value: ValueM::Lit(lit1()),
+                        })
+                    } else {
+                        PMemberM::Field(FieldM {
+                            annos: vec![],
+                            ty: TyM::List(Some(Box::new(TyM::Str))),
+                            name: format!("f{i}"),
+                            value: None,
+                        })
+                    }
+                })
+                .collect(),
+        })),
+        3 => base(ItemM::Enum(EnumM {
+            annos: vec![],
+            name: "E".into(),
+            elements: (0..n)
+                .map(|i| EnumElM {
+                    annos: vec![],
+                    name: format!("V{i}"),
+                    value: if i % 2 == 0 { Some(lit1()) } else { None },
+                })
+                .collect(),
+            trailing_comma: true,
+        })),
+        4 => {
+            let mut f = base(ItemM::Interface(InterfaceM {
+                annos: vec![],
+                oneway: false,
+                name: "I".into(),
+                members: vec![],
+            }));
+            f.imports = (0..n).map(|i| vec!["q".to_owned(), format!("T{i}")]).collect();
+            f.decls = (0..n / 4)
+                .map(|i| DeclM {
+                    annos: vec![],
+                    name: vec![format!("D{i}")],
+                })
+                .collect();
+            f
+        }
+        5 => base(ItemM::Interface(InterfaceM {
+            annos: vec![AnnoM {
+                name: "@A".into(),
+                params: Some((0..n).map(|i| (format!("k{i}"), if i % 2 == 0 { Some(lit1()) } else { None })).collect()),
+                trailing_comma: true,
+            }],
+            oneway: false,
+            name: "I".into(),
+            members: vec![IMemberM::Const(ConstM {
+                annos: vec![],
+                ty: TyM::Array(Box::new(int())),
+                name: "K".into(),
+                value: ValueM::Braces {
+                    first: vec![ValueM::Lit(lit1())],
+                    rest: (0..n).map(|_| ValueM::Lit(lit1())).collect(),
+                    trailing_comma: true,
+                },
+            })],
+        })),
+        _ => {
+            // long qualified names and many annotations on one member
+            let segs: Vec<String> = (0..n.min(120)).map(|i| format!("s{i}")).collect();
+            let mut f = base(ItemM::Parcelable(ParcelableM {
+                annos: vec![],
+                name: "P".into(),
+                members: vec![PMemberM::Field(FieldM {
+                    annos: (0..n.min(120))
+                        .map(|_| AnnoM {
+                            name: "@A".into(),
+                            params: None,
+                            trailing_comma: false,
+                        })
+                        .collect(),
+                    ty: TyM::Custom(segs.clone()),
+                    name: "x".into(),
+                    value: None,
+                })],
+            }));
+            f.package = segs;
+            f
+        }
+    };
+    (m, format!("wide shape {shape} size {n}"))
+}
+
 impl Prop for C02 {
     fn id(&self) -> &'static str {
         "C02"
     }
     fn rule(&self) -> String {
-        "case = one generated document model (all item kinds, member forms, types to depth 4, all value / annotation forms, trailing commas, near-keyword identifiers) rendered under 2-4 independent random layouts (spaces, tabs, LF/CRLF/CR, Unicode whitespace, line / block / doc comments with arbitrary incl. multi-byte text, no separator where the reference lexer allows). Oracle: tree returned by validate() == tree built from the model (ranges, docs, kinds masked; method oneway = source || interface oneway), parse-stage tree likewise, no syntax diagnostic, and equal trees across layouts. Non-trivial = >= 1 member and a layout with non-space trivia or a no-separator gap; distinct by rendered text.".into()
+        "case = one generated document model (all item kinds, member forms, types to depth 4, all value / annotation forms, trailing commas, near-keyword identifiers) rendered under 2-4 independent random layouts (spaces, tabs, LF/CRLF/CR, Unicode whitespace, line / block / doc comments with arbitrary incl. multi-byte text, no separator where the reference lexer allows). Oracle: tree returned by validate() == tree built from the model (ranges, docs, kinds masked; method oneway = source || interface oneway), parse-stage tree likewise, no syntax diagnostic, and equal trees across layouts. Plus 35 enumerated 'wide' documents (100 / 255 / 256 / 257 / 300 methods, arguments, fields, enum elements, imports, annotation parameters and brace values, 120-segment names). Non-trivial = >= 1 member and a layout with non-space trivia or a no-separator gap; distinct by rendered text.".into()
     }
     fn random_cases(&self, tier: Tier) -> u64 {
         tier.pick(20_000, 350_000)
     }
     fn max_bytes(&self) -> usize {
         2500
+    }
+    fn enum_count(&self, _tier: Tier) -> u64 {
+        35
+    }
+    fn enum_case(&self, _env: &Env, idx: u64, st: &mut Stats) -> Result<(), Fail> {
+        let (m, what) = wide_case(idx);
+        let d = DocCase::plain(m)?;
+        st.eval();
+        st.class("wide-document");
+        st.nontrivial(d.laid.text.as_bytes());
+        check_doc(&d).map(|_| ()).map_err(|e| Fail::new(e, json!({"kind": "enum", "idx": idx, "what": what})))
     }
     fn random(&self, _env: &Env, bytes: &[u8], st: &mut Stats) -> Result<(), Fail> {
         let mut s = Src::new(bytes);
